@@ -1,4 +1,7 @@
 use std::io;
+#[cfg(may_verif)]
+use crate::verif::atomic::{AtomicUsize, Ordering};
+#[cfg(not(may_verif))]
 use std::sync::atomic::{AtomicUsize, Ordering};
 use std::sync::Arc;
 use std::thread;
